@@ -213,7 +213,7 @@ static Plan c10_gen(uint64_t seed, int tier, uint64_t index) {
         if (r.chance(1, 2)) { p.cfg["tickets"] = 1; }
         if (r.chance(1, 8)) { p.cfg["noems"] = 1; }
     }
-    if (r.chance(1, 4)) { static const int CK[] = { KK_RSA2048, KK_EC256, KK_EC384 }; p.cfg["cauth"] = CK[r.below(3)]; }
+    if (r.chance(1, 3)) { static const int CK[] = { KK_RSA2048, KK_EC256, KK_EC384, KK_EC384_SHA384, KK_EC384_SHA384 }; p.cfg["cauth"] = CK[r.below(5)]; }
     // groups: MatrixSSL side offers 1-3, OpenSSL side default (all) or restricted; a first share the peer refuses gives HelloRetryRequest in TLS 1.3
     // (X25519 only with TLS 1.3: MatrixSSL does not offer it in its TLS <= 1.2 hellos, so it is not a mutually supported TLS <= 1.2 group)
     int ngroups = ver == 2 ? 4 : 3;
@@ -249,6 +249,14 @@ static std::vector<Plan> c10_fixed(int tier) {
                 }
             }
             for (int ck : { KK_RSA2048, KK_EC256 }) { Plan p; p.seed = 103000 + (uint64_t) (role * 100 + ver * 10 + ck); base_cfg(p, role, ver, ver == 0 ? TLS_ECDHE_RSA_WITH_AES_128_CBC_SHA : TLS_ECDHE_RSA_WITH_AES_128_GCM_SHA256, KK_RSA2048); p.cfg["cauth"] = ck; v.push_back(p); }
+            if (ver == 1) {
+                // client authentication x hash of the client certificate's signature x PRF hash of the suite (CertificateVerify and Finished use the same running hashes)
+                for (int ck : { KK_RSA2048, KK_EC256, KK_EC384, KK_EC384_SHA384 }) {
+                    for (uint16_t su : { (uint16_t) TLS_ECDHE_RSA_WITH_AES_128_GCM_SHA256, (uint16_t) TLS_ECDHE_RSA_WITH_AES_256_GCM_SHA384, (uint16_t) TLS_ECDHE_RSA_WITH_AES_256_CBC_SHA384, (uint16_t) TLS_RSA_WITH_AES_256_GCM_SHA384, (uint16_t) TLS_RSA_WITH_AES_256_CBC_SHA256 }) {
+                        Plan p; p.seed = 104000 + (uint64_t) (role * 1000 + ck * 50 + su % 47); base_cfg(p, role, ver, su, KK_RSA2048); p.cfg["cauth"] = ck; p.cfg["resume"] = 1; p.cfg["pl"] = ck + su % 13; v.push_back(p);
+                    }
+                }
+            }
         }
     }
     return v;
